@@ -53,13 +53,13 @@ func init() { rand.Reader = detReader{} }
 // ---------- node wrapper ----------
 
 type NodeCfg struct {
-	ID                                            uint64
-	ET, HB                                        int
+	ID                                              uint64
+	ET, HB                                          int
 	Async, CheckQuorum, PreVote, StepDown, DPF, DCV bool
-	MaxSize, MaxCommitted, MaxUncommitted         uint64
-	MaxInflight                                   int
-	MaxInflightBytes                              uint64
-	Lease                                         bool
+	MaxSize, MaxCommitted, MaxUncommitted           uint64
+	MaxInflight                                     int
+	MaxInflightBytes                                uint64
+	Lease                                           bool
 }
 
 func (c NodeCfg) raftConfig(st *raft.MemoryStorage, applied uint64) *raft.Config {
